@@ -438,6 +438,12 @@ class FnItem:
                 self.dropped.append(f"subst (first occurrence) {pat!r} -> {rep!r}")
                 continue
             body, k = re.subn(pat, rep, body)
+            if cnt == "any":
+                # every occurrence, at least one
+                if k < 1:
+                    raise LostAnchor(f"{self.src.path}:{self.line} fn {self.name}: subst {pat!r} matched 0 times")
+                self.dropped.append(f"subst (all {k} occurrences) {pat!r} -> {rep!r}")
+                continue
             if k != cnt:
                 raise LostAnchor(f"{self.src.path}:{self.line} fn {self.name}: subst {pat!r} matched {k} != {cnt}")
             self.dropped.append(f"subst {pat!r} -> {rep!r}")
